@@ -106,7 +106,7 @@ def build_driver():
             return
         sh("timeout 900 coqc -Q ../coq TV ../coq/Extract.v", cwd=OCAML)
         mods = sorted(f for f in os.listdir(OCAML) if f.startswith("drv_") and f.endswith(".ml"))
-        sh("timeout 900 ocamlfind ocamlopt -package str -linkpkg -O2 -w -a model.mli model.ml proto.ml %s driver.ml -o %s"
+        sh("timeout 900 ocamlfind ocamlopt -package str -linkpkg -O2 -w -a model.mli model.ml proto.ml prog.ml %s driver.ml -o %s"
            % (" ".join(mods), os.path.join(BUILD, "driver")), cwd=OCAML)
         for f in os.listdir(OCAML):
             if f.endswith((".cmi", ".cmx", ".o")):
